@@ -36,7 +36,7 @@ def run(ctx):
     ctx.ob('C10.2', c, 'creation-frame', k0 is not None and k0.get('v') == '0' and o0[0] == 'rv' and o0[1].get('variant') == 'ContinuityCreated',
            'first frame is %s at seq %s' % (o0[1].get('variant') if o0[0] == 'rv' else '?', k0.get('v') if k0 else '?'), line=a0.line)
     k1 = op_const(agg1['a'][agg1['fields'].index('seq')])
-    lin = [i for i in range(1, c.argc + 1) if c.lname(i) == 'lineage']
+    lin = [i for i in range(1, c.argc + 1) if c.lname(i) == 'lineage'] or [i for i in range(1, c.argc + 1) if re.search(r'Option<rip_kernel::EventKind>', c.lty(i))]
     kl = c.root_local(agg1['a'][agg1['fields'].index('kind')])
     from ..prov import reads_locals as _rl
     from_param = bool(lin) and lin[0] in _rl(c, agg1['a'][agg1['fields'].index('kind')])
@@ -54,9 +54,12 @@ def run(ctx):
     for name, parent_param, lineage in (('branch', 'parent_thread_id', 'ContinuityBranched'), ('handoff', 'from_thread_id', 'ContinuityHandoffCreated')):
         f = P.fn(STORE + name)
         ctx.touch(f)
+        # the source thread id: by name, otherwise the first parameter after self (a &str / String)
         pidx = [i for i in range(1, f.argc + 1) if f.lname(i) == parent_param]
+        if len(pidx) != 1 and f.argc >= 2 and re.search(r'str|String', f.lty(2)):
+            pidx = [2]
         if len(pidx) != 1:
-            raise CheckError('C10: %s has no parameter `%s`' % (name, parent_param))
+            raise CheckError('C10: %s has no source-thread parameter' % name)
         pidx = pidx[0]
         cc = f.calls(r'ContinuityStore::create_continuity$')
         if len(cc) != 1:
@@ -167,3 +170,28 @@ def c105(ctx):
         ctx.ob('C10.5', f, 'related-frames-scan-complete', not bad, 'the scan for frames related to from_message_id %s' % ('ends only when the source stream is exhausted' if not bad else
                'can stop EARLY (a break / return inside the loop): a run that ends after a later message is cut off, and the recorded cut lies before the end of the run that answered the message'),
                line=f.blocks[bad[0][0]]['t'].get('ln') if bad else f.blocks[h]['t'].get('ln', f.line))
+
+    # ---------------------------------------------------------------- C10.6
+    ctx.rule('C10.6', 'the from_seq cut is inclusive ("the last message at or before the cut"): in branch / handoff and their closures every ordering comparison of Event.seq keeps `seq <= cut` (Le, or Ge with the operands swapped) or drops `seq > cut`; a strict `seq < cut` (or dropping `seq >= cut`) loses the frame that sits exactly at the cut.')
+
+    def is_event_seq(g, op):
+        src = g.origin(op)
+        return src[0] == 'local' and any(isinstance(pp, dict) and pp.get('n') == 'seq' and pp.get('o') == 'rip_kernel::Event' for pp in src[2])
+    ncmp = 0
+    for name in ('branch', 'handoff'):
+        for g in P.family(STORE + name):
+            for bi in g.reachable():
+                for st in g.blocks[bi]['s']:
+                    rv = st.get('rv')
+                    if not (rv and rv['k'] == 'bin' and rv['op'] in ('Lt', 'Le', 'Gt', 'Ge')):
+                        continue
+                    a, b = rv['a']
+                    la, lb = is_event_seq(g, a), is_event_seq(g, b)
+                    if la == lb:
+                        continue          # neither, or a comparison between two frames
+                    ncmp += 1
+                    op = rv['op'] if la else {'Lt': 'Gt', 'Gt': 'Lt', 'Le': 'Ge', 'Ge': 'Le'}[rv['op']]
+                    ok = op in ('Le', 'Gt')
+                    ctx.ob('C10.6', g, 'cut-inclusive', ok, 'Event.seq %s cut: %s' % ({'Le': '<=', 'Gt': '>', 'Lt': '<', 'Ge': '>='}[op], 'the frame at the cut belongs to the child\'s history' if ok else
+                           'STRICT — the frame exactly at from_seq falls on the wrong side (the lineage names the previous message, or none)'), line=st.get('ln'))
+    ctx.floor('C10.6', 'ordering comparisons of Event.seq in branch / handoff', ncmp, 2)
